@@ -757,6 +757,17 @@ func (db *DB) searchAll(o Object, field, operator string, value interface{}, con
 		return &Search{db: db, err: fmt.Errorf("%w %s", ErrUnkownSearchOperator, operator)}
 	}
 
+	// the search value is checked against the type of the field as for
+	// indexed fields, whether or not there is an object to compare it with
+	fp := fieldPath(field)
+	searchType := search.valueTypeString()
+
+	if zero, ok := fieldByName(o, fp); ok {
+		if test, e := newIndexedField(zero, 0); e == nil && test.valueTypeString() != searchType {
+			return &Search{db: db, err: fmt.Errorf("%w, cannot cast %T(%v) to %s", ErrCasting, search.Value, search.Value, test.valueTypeString())}
+		}
+	}
+
 	// building up the iterator out of constrain
 	if constrain != nil {
 		uuids := make([]string, 0, len(constrain))
@@ -769,9 +780,6 @@ func (db *DB) searchAll(o Object, field, operator string, value interface{}, con
 	}
 
 	// we go through the iterator
-	fp := fieldPath(field)
-	searchType := search.valueTypeString()
-
 	var obj Object
 	for obj, err = iter.next(); err == nil; obj, err = iter.next() {
 		var test *indexedField
